@@ -2,6 +2,7 @@
 # SPDX-License-Identifier: BSD-4-Clause
 from __future__ import annotations
 
+import threading
 import weakref
 from collections import defaultdict
 from collections.abc import Iterable, Mapping
@@ -26,6 +27,8 @@ from .math import ffset, kdot
 PEP8_LLEN = 72
 
 _model_classes: list[type[Model]] = []
+
+_optimize_lock = threading.RLock()
 
 
 def model_classes() -> list[type[Model]]:
@@ -750,15 +753,20 @@ class Grammar(Model):
         if isinstance(self._optimized, Grammar):
             return self._optimized
 
-        optrules: tuple[Rule, ...] = tuple(r.optimized() for r in self.rules)
-        new = copy(self)
-        new.rules = optrules
-        new.initialize()
+        # NOTE: threads parsing with a shared model must not optimize it concurrently
+        with _optimize_lock:
+            if isinstance(self._optimized, Grammar):
+                return self._optimized
 
-        self._optimized = new  # NOTE cache optimized grammar
-        new._optimized = new  # NOTE circular reference as cached
+            optrules: tuple[Rule, ...] = tuple(r.optimized() for r in self.rules)
+            new = copy(self)
+            new.rules = optrules
+            new.initialize()
 
-        return new
+            new._optimized = new  # NOTE circular reference as cached
+            self._optimized = new  # NOTE cache optimized grammar
+
+            return new
 
     @classmethod
     def __from_json__(cls: type[Self], data: Mapping[str, Any]) -> Grammar:
